@@ -48,7 +48,7 @@ Fixpoint mb (pol : bool) (c : cond) : list var :=
   | CAnd l r => if pol then mb true l ++ mb true r else inter (mb false l) (mb true l ++ mb false r)
   | CElseIf l r => if pol then inter (mb true l) (mb false l ++ mb true r) else mb false l ++ mb false r
   | CUnion l r => if pol then inter (inter (mb true l) (mb false l ++ mb true r)) (mb true r)
-                  else inter (mb false l ++ mb false r) (mb false r)
+                  else mb false l ++ mb false r      (* since 6dfdafd: false results only from the first pass *)
   | CNot c => mb (negb pol) c
   | CExists _ c => if pol then mb true c else []
   | CForAll _ _ => []
@@ -79,9 +79,9 @@ Fixpoint ok (a : aspect) (bnd : list var) (c : cond) : bool :=
   | CUnion l r =>
       match a with
       | TS => ok TS bnd l && ok TS bnd r
-      | FS => false
+      | FS => ok FS bnd l && ok FS (bnd ++ mb false l) r
       | TC => ok TC bnd l && ok TC bnd r
-      | FC => ok FC bnd r
+      | FC => ok FC bnd l && ok FC (bnd ++ mb false l) r
       end
   | CNot c => ok (dual a) bnd c
   | CExists (OVar y) c =>
@@ -190,14 +190,13 @@ Section MB.
              apply in_app_or in Hx as [Hx|Hx].
              ++ eapply bound_pres; [eapply eval_pres; eauto|]. eapply (IHl false); eauto.
              ++ eapply (IHr true); eauto.
-          -- intros x Hx. apply in_inter in Hx as [Hx _]. apply in_app_or in Hx as [Hx|Hx].
+          -- intros x Hx. apply in_app_or in Hx as [Hx|Hx].
              ++ eapply bound_pres; [eapply eval_pres; eauto|]. eapply (IHl false); eauto.
              ++ eapply (IHr false); eauto.
         * destruct H2 as [[= <- Hp]|[]]. destruct pol; [|discriminate].
           intros x Hx. apply in_inter in Hx as [Hx _]. apply in_inter in Hx as [Hx _]. eapply (IHl true); eauto.
-      + destruct pol.
-        * intros x Hx. apply in_inter in Hx as [_ Hx]. eapply (IHr true); eauto.
-        * intros x Hx. apply in_inter in Hx as [_ Hx]. eapply (IHr false); eauto.
+      + apply filter_In in Hin as [Hin Hf]. simpl in Hf. destruct pol; [|discriminate].
+        intros x Hx. apply in_inter in Hx as [_ Hx]. eapply (IHr true); eauto.
     - apply in_map_iff in Hin as ([b1 f1] & [= <- Hf] & H1).
       assert (f1 = negb (negb pol)) by (destruct f1, pol; simpl in *; congruence). subst f1.
       eapply IH; eauto.
